@@ -75,8 +75,9 @@ fn mutate_lines(r: &mut Rng, src: &str, all: &[String]) -> String {
 
 /// Result line of one input.
 fn run_one(code: &str) -> String {
-    symbol_table::clear();
     let metadata = Metadata::create_default("prj").unwrap();
+    Analyzer::new(&metadata).clear();
+    symbol_table::clear();
     let Ok(parser) = Parser::parse(code, &"f.veryl") else {
         return "noparse".to_string();
     };
@@ -129,6 +130,8 @@ pub fn main(opts: &Opts) -> i32 {
     let seed = opts.seed();
     let limit_ms = opts.num("limit_ms", 30000) as u128;
     let replay = opts.get("replay").map(|x| x.to_string());
+    let workers = opts.num("workers", 16) as usize;
+    let one = opts.get("one").map(|x| x.to_string());
     panic::set_hook(Box::new(|info| {
         let loc = info.location().map(|l| format!("{}:{}", l.file(), l.line())).unwrap_or_default();
         let msg = if let Some(s) = info.payload().downcast_ref::<&str>() {
@@ -142,6 +145,22 @@ pub fn main(opts: &Opts) -> i32 {
         let msg = msg.replace(['\n', ' '], "_");
         *LAST_PANIC.lock().unwrap() = format!("{loc}::{msg}");
     }));
+    if let Some(f) = one {
+        // child mode: one input, one result line on stdout
+        let code = std::fs::read_to_string(&f).expect("input file");
+        let h = std::thread::Builder::new()
+            .stack_size(16 * 1024 * 1024)
+            .spawn(move || {
+                let res = panic::catch_unwind(panic::AssertUnwindSafe(|| run_one(&code)));
+                match res {
+                    Ok(s) => println!("{s}"),
+                    Err(_) => println!("panic {}", LAST_PANIC.lock().unwrap()),
+                }
+            })
+            .unwrap();
+        h.join().unwrap();
+        return 0;
+    }
     let out2 = out.clone();
     let handle = std::thread::Builder::new()
         .stack_size(16 * 1024 * 1024)
@@ -166,21 +185,65 @@ pub fn main(opts: &Opts) -> i32 {
                     cases.push((format!("mut{i}:{}", corpus[k].0), code));
                 }
             }
-            for (idx, (name, code)) in cases.iter().enumerate() {
-                let t = Instant::now();
-                let c2 = code.clone();
-                let res = panic::catch_unwind(panic::AssertUnwindSafe(|| run_one(&c2)));
-                let ms = t.elapsed().as_millis();
-                let reply = match res {
-                    Ok(s) => {
-                        if ms > limit_ms {
-                            format!("slow ms>{limit_ms}")
-                        } else {
-                            s
+            // One child process per case (`hx pipeline --one FILE`): analyzer state is
+            // thread-local and process-global tables are never fully reset, so isolation by
+            // process is the only way to attribute a crash to ONE input; it also turns a stack
+            // overflow or abort into an observable exit status instead of killing the harness.
+            let exe = std::env::current_exe().unwrap();
+            let case_dir = out2.join("cases");
+            let _ = std::fs::create_dir_all(&case_dir);
+            for (idx, (_, code)) in cases.iter().enumerate() {
+                std::fs::write(case_dir.join(format!("{idx}.veryl")), code).unwrap();
+            }
+            let next = std::sync::atomic::AtomicUsize::new(0);
+            let results: Mutex<Vec<Option<String>>> = Mutex::new(vec![None; cases.len()]);
+            let ncase = cases.len();
+            std::thread::scope(|sc| {
+                for _ in 0..workers {
+                    sc.spawn(|| loop {
+                        let idx = next.fetch_add(1, std::sync::atomic::Ordering::SeqCst);
+                        if idx >= ncase {
+                            break;
                         }
-                    }
-                    Err(_) => format!("panic {}", LAST_PANIC.lock().unwrap()),
-                };
+                        let f = case_dir.join(format!("{idx}.veryl"));
+                        let t = Instant::now();
+                        let mut child = std::process::Command::new(&exe)
+                            .arg("pipeline")
+                            .arg("--one")
+                            .arg(&f)
+                            .stdout(std::process::Stdio::piped())
+                            .stderr(std::process::Stdio::null())
+                            .spawn()
+                            .unwrap();
+                        let reply = loop {
+                            match child.try_wait().unwrap() {
+                                Some(st) => {
+                                    let mut so = String::new();
+                                    use std::io::Read;
+                                    let _ = child.stdout.take().unwrap().read_to_string(&mut so);
+                                    let line = so.lines().last().unwrap_or("").to_string();
+                                    if st.success() && !line.is_empty() {
+                                        break line;
+                                    }
+                                    break format!("abort status={st}").replace(' ', "_").replacen("abort_", "abort ", 1);
+                                }
+                                None => {
+                                    if t.elapsed().as_millis() > limit_ms {
+                                        let _ = child.kill();
+                                        let _ = child.wait();
+                                        break format!("slow ms>{limit_ms}");
+                                    }
+                                    std::thread::sleep(std::time::Duration::from_millis(2));
+                                }
+                            }
+                        };
+                        results.lock().unwrap()[idx] = Some(reply);
+                    });
+                }
+            });
+            let results = results.into_inner().unwrap();
+            for (idx, (name, code)) in cases.iter().enumerate() {
+                let reply = results[idx].clone().unwrap_or_else(|| "abort missing".to_string());
                 let kind = reply.split(' ').next().unwrap().to_string();
                 log.count(&format!("result_{kind}"));
                 if reply.starts_with("ok") {
@@ -195,6 +258,7 @@ pub fn main(opts: &Opts) -> i32 {
                 }
                 log.push3(format!("case {idx} {}", name.replace(' ', "_")), reply, oracle);
             }
+            let _ = std::fs::remove_dir_all(&case_dir);
             log.add("cases", cases.len() as u64);
             log.write(&out2);
         })
